@@ -63,6 +63,10 @@ def translate():
         return None, r.stdout[-2000:] + r.stderr[-2000:]
 
 
+#: properties whose model is the schema generated from ofxtools.models
+SCHEMA_PROPS = {"C01", "C03", "C04", "C06", "C07", "C13", "C16", "C17"}
+
+
 def lake_build(targets, timeout=3000):
     """-> (ok, output)"""
     r = subprocess.run(["lake", "build"] + list(targets), cwd=LEAN, capture_output=True, text=True, timeout=timeout)
@@ -359,6 +363,7 @@ def main(argv=None):
     proof_fail = []       # undischarged obligations: (name, message)
     obligations = []
     discharged = []
+    translator_problems = []
     witness_ok, witness_bad = [], []
     audit_res = {}
     build_out = ""
@@ -372,6 +377,11 @@ def main(argv=None):
                 return 2
             if tr["problems"]:
                 log("translator notes: " + "; ".join(tr["problems"]))
+                # what the translator cannot represent is silently absent from the model (a child of an unknown
+                # converter type is treated as unsupported, i.e. skipped): for the properties that quantify over the
+                # model classes the tie to the source is then broken, and that is an obligation, not a note
+                if prop in SCHEMA_PROPS:
+                    translator_problems = list(tr["problems"])
             ok_model, out_model = lake_build(["driver"])
             if not ok_model:
                 log(out_model[-6000:])
@@ -411,6 +421,12 @@ def main(argv=None):
                 discharged.append(t)
             else:
                 proof_fail.append((t, res["msg"]))
+        if prop in SCHEMA_PROPS:
+            obligations.append("translator: every class attribute of ofxtools.models is represented in the generated schema")
+            if translator_problems:
+                proof_fail.append(("translator", "; ".join(translator_problems[:6])))
+            else:
+                discharged.append(obligations[-1])
         obligations.append("source-scan: no sorry/admit/axiom/native_decide/bv_decide/implemented_by/unsafe/maxHeartbeats 0")
         if scan:
             proof_fail.append(("source-scan", "; ".join(scan[:10])))
